@@ -25,6 +25,7 @@ import (
 	"google.golang.org/grpc/metadata"
 	"google.golang.org/grpc/status"
 	"google.golang.org/protobuf/proto"
+	"google.golang.org/protobuf/protoadapt"
 	"google.golang.org/protobuf/types/known/durationpb"
 )
 
@@ -66,11 +67,14 @@ type collector struct {
 	signal string // trace | metric | log
 	grpc   bool
 	script []Step
-	tag    string // unique marker put into partial-success messages
-	t0     time.Time
+	// endless: requests beyond the script are answered with the script's last step
+	endless bool
+	tag     string // unique marker put into partial-success messages
+	t0      time.Time
 
-	mu  sync.Mutex
-	log []*entry
+	mu        sync.Mutex
+	log       []*entry
+	firstBody []byte
 
 	done chan struct{} // closed on teardown: releases every held handler
 
@@ -120,10 +124,24 @@ func (c *collector) arrive(header func(string) string) (*entry, Step, bool) {
 	if c.onArrive != nil {
 		c.onArrive(e.Step)
 	}
-	if e.Step < len(c.script) {
-		return e, c.script[e.Step], true
+	if c.scripted(e.Step) {
+		return e, c.stepAt(e.Step), true
 	}
 	return e, Step{}, false
+}
+
+// shareBody (called with the lock held) returns the first recorded body
+// instead of b when the two are byte-identical, so that a long run of identical
+// re-sends costs no memory.
+func (c *collector) shareBody(b []byte) []byte {
+	if c.firstBody == nil {
+		c.firstBody = b
+		return b
+	}
+	if bytes.Equal(b, c.firstBody) {
+		return c.firstBody
+	}
+	return b
 }
 
 func (c *collector) set(e *entry, f func(*entry)) {
@@ -194,7 +212,43 @@ func (c *collector) interferers() []entry {
 	return append([]entry(nil), c.interf...)
 }
 
-func (c *collector) partialMsg(step int) string { return fmt.Sprintf("%s-k%d rejected", c.tag, step) }
+func (c *collector) partialMsg(step int) string { return partialText(c.tag, step, c.stepAt(step).Msg) }
+
+// percentTail is appended to the error_message for the shape "percent": the
+// message is data and has to arrive at the error handler as it was sent.
+const percentTail = " 100%d of %s rows %v %!x(MISSING) 5%"
+
+// partialText is the error_message sent for a partial success of the given shape.
+func partialText(tag string, step int, shape string) string {
+	switch shape {
+	case "empty":
+		return ""
+	case "percent":
+		return fmt.Sprintf("%s-k%d rejected", tag, step) + percentTail
+	}
+	return fmt.Sprintf("%s-k%d rejected", tag, step)
+}
+
+// maxLog: requests beyond this many are answered with a terminal failure
+// whatever the script says (a guard of the harness against a client that
+// hammers the collector without end).
+const maxLog = 30000
+
+// stepAt is the scripted answer to the n-th request: script[n]; beyond the
+// script the last step again when the script is endless.
+func (c *collector) stepAt(n int) Step {
+	if n < len(c.script) {
+		return c.script[n]
+	}
+	if c.endless && len(c.script) > 0 && n < maxLog {
+		return c.script[len(c.script)-1]
+	}
+	return Step{}
+}
+
+func (c *collector) scripted(n int) bool {
+	return n < len(c.script) || (c.endless && len(c.script) > 0 && n < maxLog)
+}
 
 // ---------------------------------------------------------------------
 // HTTP front end
@@ -270,7 +324,7 @@ func (c *collector) ServeHTTP(w http.ResponseWriter, r *http.Request) {
 	e, st, ok := c.arrive(r.Header.Get)
 	body, rerr := readHTTPBody(r)
 	c.set(e, func(e *entry) {
-		e.Body, e.BodySet = body, true
+		e.Body, e.BodySet = c.shareBody(body), true
 		if rerr != nil {
 			e.BodyErr = rerr.Error()
 		}
@@ -402,7 +456,7 @@ func (c *collector) serveGRPC(ctx context.Context, req proto.Message, okResp fun
 	e, st, known := c.arrive(header)
 	body, merr := detMarshal.Marshal(req)
 	c.set(e, func(e *entry) {
-		e.Body, e.BodySet = body, true
+		e.Body, e.BodySet = c.shareBody(body), true
 		if merr != nil {
 			e.BodyErr = merr.Error()
 		}
@@ -424,9 +478,22 @@ func (c *collector) serveGRPC(ctx context.Context, req proto.Message, okResp fun
 		}
 		s := status.New(code, "scripted failure")
 		var hint time.Duration
+		// other details first (ExtraDetails of them), then the RetryInfo: the
+		// statement speaks of a status that CARRIES retry info, not of its position
+		var details []protoadapt.MessageV1
+		for i := 0; i < st.ExtraDetails; i++ {
+			if i%2 == 0 {
+				details = append(details, &errdetails.ErrorInfo{Reason: "SCRIPTED", Domain: "c14.example"})
+			} else {
+				details = append(details, &errdetails.DebugInfo{Detail: "scripted failure"})
+			}
+		}
 		if st.RetryInfoMS >= 0 {
 			hint = time.Duration(st.RetryInfoMS) * time.Millisecond
-			if ws, err := s.WithDetails(&errdetails.RetryInfo{RetryDelay: durationpb.New(hint)}); err == nil {
+			details = append(details, &errdetails.RetryInfo{RetryDelay: durationpb.New(hint)})
+		}
+		if len(details) > 0 {
+			if ws, err := s.WithDetails(details...); err == nil {
 				s = ws
 			}
 		}
@@ -439,6 +506,9 @@ func (c *collector) serveGRPC(ctx context.Context, req proto.Message, okResp fun
 		c.set(e, func(e *entry) {
 			e.Outcome, e.Hint, e.RespAt = outcome, hint, c.now()
 			e.Desc = fmt.Sprintf("gRPC %s RetryInfo=%dms", code, st.RetryInfoMS)
+			if st.ExtraDetails > 0 {
+				e.Desc += fmt.Sprintf(" after %d other details", st.ExtraDetails)
+			}
 		})
 		defer c.responded(e)
 		return nil, s.Err()
